@@ -94,22 +94,38 @@ class Unit:
             self.out.append(f"Definition enum_mem_{name} (v : Z) : bool := {body}.")
         return f"enum_mem_{name}"
 
-    def translate(self, qual, coq, env, ret_fields=None, opaque_locals=None):
+    def translate(self, qual, coq, env, ret_fields=None, opaque_locals=None, state=None, locks=(), allow_defaults=False):
         """env: ordered dict  python expression text -> ("param", coqname, ty) | ("call", coqname, [arg texts]) |
         ("const", coq text, ty).  ret_fields: for a constructor call in return position, keep only these fields.
         opaque_locals: {local name: exact source text of its right-hand side} - assignments that are not translated; the
-        local may then only be used in dropped constructor fields."""
-        fn = self.find(qual)
+        local may then only be used in dropped constructor fields.
+        state: ordered dict  attribute chain text (e.g. "self.position_vector") -> initial value (python expression text
+        declared in env): a method that mutates these attributes and returns nothing is translated to the function
+        returning their final values; locks: the `with <expr>:` context expressions (exact text) that are transparent."""
+        fn = copy.deepcopy(self.find(qual))
+        if state:
+            names = {k: "st_" + k.replace(".", "_") for k in state}
+            fn.body = [_StateAttr(names).visit(st) for st in fn.body]
+            init = [ast.parse(f"{names[k]} = {v}").body[0] for k, v in state.items()]
+            ret = ast.parse("return (" + ", ".join(names[k] for k in state) + ("," if len(state) == 1 else "") + ")").body[0]
+            if len(state) == 1:
+                ret = ast.parse(f"return {names[list(state)[0]]}").body[0]
+            for sub in ast.walk(ast.Module(body=fn.body, type_ignores=[])):
+                if isinstance(sub, ast.Return):
+                    raise Fail(f"{qual}: a state-mutating method with an explicit return is not translated")
+            fn.body = init + fn.body + [ret]
+            for n in init + [ret]:
+                ast.fix_missing_locations(ast.copy_location(n, fn))
         params = [(v[1], v[2]) for v in env.values() if v[0] == "param"]
         declared = {a.arg for a in fn.args.args}
         for a in declared - {"self", "cls"}:
             if not any(k == a or k.startswith(a + ".") or k.startswith(a + "[") for k in env):
                 raise Fail(f"{qual}: argument {a} is not declared in the environment")
-        if fn.args.vararg or fn.args.kwarg or fn.args.kwonlyargs or fn.args.defaults:
+        if fn.args.vararg or fn.args.kwarg or fn.args.kwonlyargs or (fn.args.defaults and not allow_defaults):
             raise Fail(f"{qual}: unsupported signature")
         last = None
         for option in (False, True):
-            tr = _Fn(self, qual, env, option, ret_fields or None, opaque_locals or {})
+            tr = _Fn(self, qual, env, option, ret_fields or None, opaque_locals or {}, tuple(locks))
             try:
                 body, ty = tr.block(list(fn.body), {})
             except NeedOption:
@@ -150,9 +166,23 @@ class _Subst(ast.NodeTransformer):
         return node
 
 
+class _StateAttr(ast.NodeTransformer):
+    """self.a.b (a declared state attribute) -> the local st_self_a_b, for loads and stores"""
+
+    def __init__(self, names):
+        self.names = names
+
+    def visit_Attribute(self, node):
+        key = ast.unparse(node)
+        if key in self.names:
+            return ast.copy_location(ast.Name(id=self.names[key], ctx=node.ctx), node)
+        return self.generic_visit(node)
+
+
 class _Fn:
-    def __init__(self, unit, qual, env, option, ret_fields, opaque_locals):
+    def __init__(self, unit, qual, env, option, ret_fields, opaque_locals, locks=()):
         self.u, self.qual, self.env, self.option = unit, qual, env, option
+        self.locks = locks
         self.ret_fields, self.opaque = ret_fields, opaque_locals
         self.n = 0
         self.ret_ty = None
@@ -188,6 +218,11 @@ class _Fn:
             return self.block(rest, vars_)
         if isinstance(st, ast.Pass):
             return self.block(rest, vars_)
+        if isinstance(st, ast.With):
+            if len(st.items) != 1 or st.items[0].optional_vars is not None \
+                    or ast.unparse(st.items[0].context_expr) not in self.locks:
+                self.fail(st, "with-statement over something that is not a declared lock")
+            return self.block(list(st.body) + rest, vars_)
         if isinstance(st, ast.Return):
             if st.value is None:
                 self.fail(st, "return without value")
@@ -210,6 +245,8 @@ class _Fn:
             c, cty, effs = self.expr(st.test, vars_)
             if cty != "bool":
                 self.fail(st.test, "condition is not a boolean")
+            if c in ("true", "false") and not effs:     # a condition the environment declares constant: the dead branch is dropped
+                return self.block(list(st.body if c == "true" else st.orelse) + rest, vars_)
             if self.no_ctrl(st.body) and self.no_ctrl(st.orelse):
                 try:
                     return self.join_if(st, rest, vars_, c, effs)
@@ -311,6 +348,10 @@ class _Fn:
                     raise NeedOption()
                 if cty != "bool":
                     self.fail(st.test, "condition is not a boolean")
+                if c in ("true", "false"):
+                    t2, vars_ = self.straight(st.body if c == "true" else st.orelse, vars_)
+                    text += t2
+                    continue
                 names = sorted(self.assigned(st.body) | self.assigned(st.orelse))
                 ta, va = self.straight(st.body, vars_)
                 tb, vb = self.straight(st.orelse, vars_)
